@@ -22,6 +22,7 @@ type Env struct {
 	vars map[string]Val
 	what string // for error messages
 	loopSnap *snapshot // heap at loop entry, for atloop(...)
+	iterSnap *snapshot // heap at the start of the current symbolic iteration, for atiter(...)
 }
 
 type specErr struct{ msg string }
@@ -157,6 +158,10 @@ func (e *Env) evalPlace(x ast.Expr) place {
 		return e.selectField(p, x.Sel.Name)
 	case *ast.StarExpr:
 		v := e.eval(x.X)
+		if mt, isMap := v.T.Underlying().(*types.Map); isMap {
+			// *m : the content (domain and values) of map m, for modifies clauses
+			return place{isAddr: true, addr: v.L[0], T: mapObjType(mt)}
+		}
 		pt, ok := v.T.Underlying().(*types.Pointer)
 		if !ok {
 			e.fail("cannot dereference %s of type %s", exprString(x.X), v.T)
@@ -181,6 +186,12 @@ func (e *Env) evalPlace(x ast.Expr) place {
 			return place{val: boolVal(selectN(base.L[0], k.L)), T: tyBool}
 		}
 		e.fail("cannot index %s", base.T)
+	}
+	if c, ok := x.(*ast.CallExpr); ok {
+		if id, ok := c.Fun.(*ast.Ident); ok && id.Name == "closed" && len(c.Args) == 1 {
+			ch := e.eval(c.Args[0])
+			return place{isAddr: true, addr: extendGhost(ch.L[0], 0), T: tyBool}
+		}
 	}
 	v := e.evalValue(x)
 	return place{val: v, T: v.T}
@@ -403,6 +414,9 @@ func (e *Env) evalValue(x ast.Expr) Val {
 		if isInterface(t) {
 			return Val{T: t, L: v.L}
 		}
+		if isStringKinded(t) {
+			return Val{T: t, L: []Term{unboxString(v.L[1])}}
+		}
 		return e.st.loadValIn(e.cur, v.L[1], t)
 	case *ast.CallExpr:
 		return e.evalCall(x)
@@ -480,6 +494,64 @@ func (e *Env) evalCall(c *ast.CallExpr) Val {
 			e.fail("atloop() used outside a loop invariant")
 		}
 		return e.withCur(e.loopSnap).eval(arg(0))
+	case "atiter":
+		if e.iterSnap == nil {
+			e.fail("atiter() used outside a loop step/invariant")
+		}
+		return e.withCur(e.iterSnap).eval(arg(0))
+	case "nsent", "lastsent", "tablewrites", "domatunlock", "domatlock":
+		// engine-maintained ghost counters, keyed by "Type.field" written as a selector
+		key := exprString(arg(0))
+		switch name {
+		case "nsent":
+			if t, ok := e.st.ghostInt["sent:"+key]; ok {
+				return intVal(t)
+			}
+			return intVal("0")
+		case "lastsent":
+			if t, ok := e.st.ghostInt["lastsent:"+key]; ok {
+				return Val{T: types.NewPointer(types.NewStruct(nil, nil)), L: []Term{t}}
+			}
+			return Val{T: tyUntypedNil, L: []Term{rnil}}
+		case "tablewrites":
+			if t, ok := e.st.ghostInt["writes:"+key]; ok {
+				return intVal(t)
+			}
+			return intVal("0")
+		default:
+			pfx := "unlockdom:"
+			if name == "domatlock" {
+				pfx = "lockdom:"
+			}
+			t, ok := e.st.ghostInt[pfx+key]
+			if !ok {
+				e.fail("%s(%s): the monitor was never acquired/released on this path", name, key)
+			}
+			return Val{T: setType(tyString), L: []Term{t}}
+		}
+	case "ntrue":
+		// ntrue("callee label"): calls (in this iteration/path) of a boolean function that returned true
+		lit, ok := arg(0).(*ast.BasicLit)
+		if !ok {
+			e.fail("ntrue needs a string literal")
+		}
+		lbl, _ := strconv.Unquote(lit.Value)
+		if t, ok := e.st.ghostInt["rtrue:"+lbl]; ok {
+			return intVal(t)
+		}
+		return intVal("0")
+	case "locked":
+		p := e.evalPlace(arg(0))
+		if !p.isAddr {
+			e.fail("locked() needs an addressable mutex")
+		}
+		if e.st.held[p.addr] {
+			return boolVal("true")
+		}
+		return boolVal("false")
+	case "closed":
+		v := e.eval(arg(0))
+		return boolVal(e.st.loadIn(e.cur, "Bool", extendGhost(v.L[0], 0)))
 	case "fresh":
 		v := e.eval(arg(0))
 		r := v.L[0]
@@ -754,6 +826,10 @@ func (x *Exec) typeOfExpr(e ast.Expr) types.Type {
 				}
 			}
 		}
+	case *ast.StructType:
+		if e.Fields == nil || len(e.Fields.List) == 0 {
+			return types.NewStruct(nil, nil)
+		}
 	case *ast.InterfaceType:
 		return types.NewInterfaceType(nil, nil)
 	case *ast.FuncType:
@@ -770,7 +846,13 @@ func (x *Exec) typeOfExpr(e ast.Expr) types.Type {
 		}
 		return types.NewSignatureType(nil, nil, nil, types.NewTuple(ps...), types.NewTuple(rs...), false)
 	case *ast.ChanType:
-		return types.NewChan(types.SendRecv, x.typeOfExpr(e.Value))
+		dir := types.SendRecv
+		if e.Dir == ast.SEND {
+			dir = types.SendOnly
+		} else if e.Dir == ast.RECV {
+			dir = types.RecvOnly
+		}
+		return types.NewChan(dir, x.typeOfExpr(e.Value))
 	}
 	panic(specErr{fmt.Sprintf("unknown type expression %s", exprString(e))})
 }
@@ -798,4 +880,25 @@ func setType(elem types.Type) types.Type {
 func isSetType(t types.Type) bool {
 	n, ok := t.(*types.Named)
 	return ok && strings.HasPrefix(n.Obj().Name(), "set·")
+}
+
+
+var mapObjTypes = map[string]*types.Named{}
+
+// mapObjType: synthetic type whose leaves are the two cells of a map object.
+func mapObjType(mt *types.Map) types.Type {
+	k := typeKey(mt)
+	if t, ok := mapObjTypes[k]; ok {
+		return t
+	}
+	tn := types.NewTypeName(token.NoPos, nil, "mapobj·"+k, nil)
+	t := types.NewNamed(tn, types.NewStruct(nil, nil), nil)
+	mapObjTypes[k] = t
+	dom, val, _, hasVal := mapSorts(mt)
+	ls := []Leaf{{Path: []int{0}, Sort: dom, Kind: LkPlain, T: t}}
+	if hasVal {
+		ls = append(ls, Leaf{Path: []int{1}, Sort: val, Kind: LkPlain, T: t})
+	}
+	leafCache[typeKey(t)] = ls
+	return t
 }
